@@ -622,7 +622,7 @@ def store_history(rng, nsteps):
         return app("vector-ref", var(x), lit(j)), lens[x][j]
 
     for step in range(nsteps):
-        ops = ["newcounter", "newacc", "newshared", "newvec", "global", "newloop", "nest", "rebind"]
+        ops = ["newcounter", "newacc", "newshared", "newvec", "global", "newloop", "nest", "rebind", "swapin"]
         if loops: ops += ["bumploop", "bumploop"]
         if counters or accs: ops += ["call", "call", "call2"]
         if shared: ops += ["shared", "shared"]
@@ -646,6 +646,28 @@ def store_history(rng, nsteps):
             for _ in range(j):
                 e = app("cdr", e)
             forms.append(app(app("car", e)))
+        elif op == "swapin":
+            # a slot that holds one object is given ANOTHER object that looks just like it (a vector with equal contents, a
+            # counter made by the same maker): afterwards the slot holds the new object - changing it shows through the slot,
+            # the old one is untouched
+            t_ = rng.randint(1, 3)
+            x, y, box = "sx%d" % t_, "sy%d" % t_, "sbox%d" % t_
+            if rng.random() < 0.6:
+                k = rng.randint(1, 3)
+                fill = rng.randint(0, 3)
+                mk = (lambda: app("make-vector", lit(k), lit(fill))) if rng.random() < 0.5 else (lambda: app("vector", *[lit(fill)] * k))
+                j = rng.randrange(k)
+                forms.append(define(x, mk())); forms.append(define(y, mk()))
+                forms.append(define(box, app("vector", var(x), lit(0))))
+                forms.append(app("vector-set!", var(box), lit(0), var(y)))
+                forms.append(app("vector-set!", var(y), lit(j), lit(rng.randint(10, 99))))
+                forms.append(app("list", app("vector-ref", app("vector-ref", var(box), lit(0)), lit(j)), app("vector-ref", var(x), lit(j)), app("vector-ref", var(y), lit(j))))
+            else:
+                forms.append(define(x, app("make-counter")))
+                forms.append(app(x)); forms.append(app(x))
+                forms.append(define(box, app("vector", var(x))))
+                forms.append(app("vector-set!", var(box), lit(0), app("make-counter")))
+                forms.append(app("list", app(app("vector-ref", var(box), lit(0))), app(x)))
         elif op == "nest":
             # a vector stored INTO a vector that looks just like it: the slot holds that very object, not a copy
             a, b = "n%d" % rng.randint(1, 3), "m%d" % rng.randint(1, 3)
